@@ -383,12 +383,13 @@ accumulated error list (`continue` after a missing constructor, a name or an ord
 def matchLoop (cs : List Cls) : List Cls → List RuleId → List RuleId
   | [], errs => errs
   | c :: rest, errs =>
-    let props := stackedProps cs c
-    if c.props ≠ [] ∧ c.ctor.isNone then matchLoop cs rest (errs ++ [.ctorMissing])
-    else if !sameNames (c.args.map (·.name)) (props.map (·.name)) then matchLoop cs rest (errs ++ [.ctorArgNames])
-    else if orderedArgs c.args ≠ orderedProps c.args (props.map (·.name)) then matchLoop cs rest (errs ++ [.ctorArgOrder])
+    if c.props ≠ [] ∧ c.ctor = none then matchLoop cs rest (errs ++ [.ctorMissing])
+    else if sameNames (c.args.map (·.name)) ((stackedProps cs c).map (·.name)) = false then
+      matchLoop cs rest (errs ++ [.ctorArgNames])
+    else if orderedArgs c.args ≠ orderedProps c.args ((stackedProps cs c).map (·.name)) then
+      matchLoop cs rest (errs ++ [.ctorArgOrder])
     else if errs ≠ [] then errs
-    else matchLoop cs rest (errs ++ typeErrors c.args props)
+    else matchLoop cs rest (errs ++ typeErrors c.args (stackedProps cs c))
 
 def matchErrors (m : MM) : List RuleId := matchLoop m.classes m.classes []
 
